@@ -54,7 +54,7 @@ def base(rng, **kw):
 def gen_scenarios(tier, seed):
     rng = Rng(PROP, seed, "gen")
     out = []
-    scale = 3 if tier == "quick" else 24
+    scale = 3 if tier == "quick" else 60
     pools = [1, 2, 3, 4, 8, 16]
     # A: mixed flags, all sender kinds
     for i in range(30 * scale):
